@@ -274,6 +274,11 @@ struct MJ {
     for (auto &kv : obj) if (!kv.second.allFinite()) return false;
     return true;
   }
+  bool anyNone() const {       // an uninitialised json somewhere below: text cannot represent it
+    for (auto &e : arr) if (e.t == M_NONE || e.anyNone()) return true;
+    for (auto &kv : obj) if (kv.second.t == M_NONE || kv.second.anyNone()) return true;
+    return false;
+  }
   int depth() const {
     int d = 0;
     for (auto &e : arr) d = std::max(d, e.depth());
@@ -598,10 +603,12 @@ static bool runCase(const Case &c, Ctx &ctx) {
       } else {
         const int src = slotOf(o, 2);
         MJ *sm = w.node(src);
-        if (!sm || sm->t == M_NONE || sm->depth() > 4) break;    // an uninitialised json is not a value
+        if (!sm || sm->depth() > 4) break;
         val = *sm;                                                 // copied before the target changes (src may be inside it)
+        if (sm == m && val.t == M_NONE) val.t = M_OBJ;             // j.set(key, j) on an empty j: j becomes {} first, {} is copied
         v = w.s[src].h;
-        ctx.cls("set-nested-json");
+        // a still-empty occaCreateJson() is stored as such: the key exists, reads back as an OCCA_JSON child without any type flag
+        ctx.cls(sm->t == M_NONE ? "set-uninitialised-json" : "set-nested-json");
       }
       const int srcSlot = (o.k == J_SETJSON) ? slotOf(o, 2) : -1;
       if (!settable) {
@@ -729,7 +736,7 @@ static bool runCase(const Case &c, Ctx &ctx) {
     case J_DUMPPARSE: {
       const int i = slotOf(o, 0), d = slotOf(o, 1);
       MJ *m = w.node(i);
-      if (!m || d == i || m->t == M_NONE || w.rootOf(i) == d) break;
+      if (!m || d == i || m->t == M_NONE || m->anyNone() || w.rootOf(i) == d) break;
       const MJ copy = *m;
       w.release(d);
       const int indent = (int) (A(o, 2) % 5);
